@@ -729,8 +729,10 @@ func (d *DFA) searchEarliestMatch(cache *DFACache, haystack []byte, startPos int
 		if exitBytes := currentState.AccelExitBytes(); len(exitBytes) > 0 {
 			nextPos := d.accelerate(haystack, pos, exitBytes)
 			if nextPos == -1 {
-				// No exit byte found - can't match
-				return false
+				// No exit byte: the state loops until the end of input, where
+				// an end-of-input assertion may still complete a match.
+				pos = endPos
+				break
 			}
 			// Skip to the exit byte position
 			pos = nextPos
@@ -1253,7 +1255,10 @@ func (d *DFA) searchAt(cache *DFACache, haystack []byte, startPos int) int { //n
 		if exitBytes := currentState.AccelExitBytes(); len(exitBytes) > 0 {
 			nextPos := d.accelerate(haystack, pos, exitBytes)
 			if nextPos == -1 {
-				return lastMatch
+				// No exit byte: the state loops until the end of input; fall
+				// through to the end-of-input match check.
+				pos = end
+				break
 			}
 			pos = nextPos
 		}
@@ -1671,7 +1676,20 @@ func (d *DFA) tryDetectAccelerationWithCache(state *State, cache *DFACache) {
 
 	var exitBytes []byte
 	if cache != nil && cache.stride > 0 {
-		exitBytes = DetectAccelerationFromFlat(state.ID(), cache.flatTrans, cache.stride, d.byteClasses)
+		// Sound variant: dead transitions are exits, every transition must be
+		// known, match states are never skipped over (a dead transition that
+		// was skipped made the scan run past the leftmost match once the row
+		// was fully populated by earlier searches).
+		sid := state.ID()
+		ft := cache.flatTrans
+		exitBytes = detectSkippableExitBytes(sid, cache.stride, func(classIdx int) (StateID, bool) {
+			offset := safeOffset(sid, classIdx)
+			if offset >= len(ft) {
+				return InvalidState, false
+			}
+			next := ft[offset]
+			return next, next != InvalidState
+		}, d.byteClasses)
 	}
 	if len(exitBytes) > 0 {
 		state.SetAccelBytes(exitBytes)
